@@ -13,10 +13,17 @@ from vlib import Infra
 LEVEL = "model_checking"
 
 
-def histories(ck, spec, module, cfg_ex, cfg_sim, nsim, depth):
+def histories(ck, spec, module, cfg_ex, cfg_sim, nsim, depth, cfg_deep=None):
     r = ck.tlc(spec, module, cfg_ex, timeout=1500, label="exhaustive histories")
     ck.model(r)
     rows = r.printed("@H")
+    if cfg_deep:
+        rd = ck.tlc(spec, module, cfg_deep, timeout=1500, label="exhaustive long histories over a one-key alphabet")
+        ck.model(rd)
+        deep = rd.printed("@H")
+        if len(deep) < 500:
+            raise Infra("deep config produced %d histories" % len(deep))
+        rows = rows + deep
     r2 = ck.tlc(spec, module, cfg_sim, simulate="num=%d" % nsim, depth=depth, timeout=900, label="simulated long histories")
     rows2 = r2.printed("@H")
     if len(rows) < 50 or len(rows2) < 5:
@@ -43,7 +50,7 @@ def replay(ck, rows, test, key_prefix, kind):
 def run(ck):
     q = ck.quick()
     rows, rows2 = histories(ck, "tables", "RouteTable", "Route2.cfg" if q else "Route3.cfg", "RouteSim.cfg",
-                            40 if q else 400, 12)
+                            40 if q else 400, 12, "RouteDeep5.cfg" if q else "RouteDeep6.cfg")
     res = replay(ck, rows + rows2, "TestRoutes", "C17", "route")
     ck.cov["exhaustive"] = True
     ck.cov["lookups"] = res["lookups"]
